@@ -71,10 +71,10 @@ def auto_names(case):
         if key in out or key not in POOL:
             continue
         spec = POOL[key]
-        if key == "QU" and "sq0" not in used:
-            out[key] = "sq0"  # the alias it carries from the earlier statement - unless another source of this one answers to it already
+        if key == "QU":
+            out[key] = "sq0"
             used.add("sq0")
-        elif key in AUTO or key == "QU":
+        elif key in AUTO:
             while "sq%d" % nsq in used:
                 nsq += 1  # a name that addresses a source already is not given again
             out[key] = "sq%d" % nsq
